@@ -353,6 +353,9 @@ def run_case(case: dict, env: core.Env) -> None:
         if not tout["ok"]:
             env.count("twin_rejected")
             env.cover("twin_rejected", f"{pos}/{vclass}")
+            if not out["ok"] and isinstance(v, str) and out["exc"]["kind"] != "snowflake":
+                # the value sinks the statement however it is handed over: it is being read as SQL, not as data
+                env.witness(f"C08/rejected-with-its-literal-twin/{style}/{pos}/{vclass}/{out['exc']['cls']}", f"{psql} {pp!r}: {out['exc']}"[:700])
             return  # the literal form itself is not accepted: outside the comparable domain
         if not out["ok"]:
             env.witness(f"C08/rejected/{style}/{pos}/{vclass}{prefix_var}/{out['exc']['cls']}", f"{psql} {pp!r}: {out['exc']}"[:700])
